@@ -400,6 +400,10 @@ func (vc *VC) atCall(fr *Frame, st *State, pc string, short string, ord int, sit
 				fr.labels = map[string]*State{}
 			}
 			fr.labels[as.Label] = st.clone()
+			if fr.labelPC == nil {
+				fr.labelPC = map[string]string{}
+			}
+			fr.labelPC[as.Label] = pc
 			continue
 		}
 		cenv := vc.envAt(fr, st)
